@@ -5,7 +5,7 @@ patch="$(realpath "$1")"; shift
 cd /repo || exit 2
 if [ -n "$(git status --short -- device_kit)" ]; then echo "repo not clean"; exit 2; fi
 git apply "$patch" || { echo "patch does not apply"; exit 2; }
-trap 'git -C /repo checkout -- . ; python3 /verif/vk/translate.py /repo >/dev/null' EXIT
+trap 'git -C /repo checkout -- . ; /venv/bin/python /verif/vk/translate.py /repo >/dev/null' EXIT
 cd /verif
 for c in "$@"; do
   out=$(VERIF_EVIDENCE_DIR=/tmp/mut_evidence VERIF_REPLAY_DIR=/tmp/mut_evidence ./check "$c" --tier quick 2>&1); rc=$?
